@@ -91,3 +91,32 @@ Print Assumptions C17_concat.
 Print Assumptions C17_fanin_order_independent.
 Print Assumptions C17_fanin_each_once.
 Print Assumptions C17_cwr_spec.
+
+(* ================================================================================================================ *)
+(* Tie (T): NVAR.forward, Delay.forward and concat_forward as translated on this run from the current source text of
+   nodes/reservoirs/nvar.py, nodes/delay.py, nodes/concat.py (coq/gen/Gen_windows.v) ARE the model the theorems above are about,
+   for every Num instance (hence also at Q, where the correspondence runs).                                             *)
+From RV Require Import base.GenPrelude gen.Gen_windows proofs.Gen_windows_eq.
+
+(* (output row, new store); idx = node._monomial_idx, the store is not empty (delay * strides >= 1) *)
+Theorem C17_generated_nvar_forward_is_model {F : Type} `{Num F} (order strides od : nat) (store : list (list F)) (x : list F) :
+  store <> [] ->
+  let store' := x :: removelast store in
+  let lin := concat (stride strides store') in
+  GenWindows.nvar_forward store strides (cwr (length lin) order) od x
+  = (snd (nvar_step order strides store x), fst (nvar_step order strides store x)).
+Proof. exact (gen_nvar_forward_eq order strides od store x). Qed.
+
+(* (output row, new buffer); between two steps the deque (maxlen = delay + 1) holds at most [delay] rows *)
+Theorem C17_generated_delay_forward_is_model {F : Type} `{Num F} (delay : nat) (buf : list (list F)) (x : list F) :
+  length buf <= delay ->
+  GenWindows.delay_forward buf delay x = (snd (delay_step buf x), fst (delay_step buf x)).
+Proof. exact (gen_delay_forward_eq delay buf x). Qed.
+
+Theorem C17_generated_concat_forward_is_model {F : Type} `{Num F} (data : list (list F)) :
+  GenWindows.concat_forward data = concat_forward data.
+Proof. exact (gen_concat_forward_eq data). Qed.
+
+Print Assumptions C17_generated_nvar_forward_is_model.
+Print Assumptions C17_generated_delay_forward_is_model.
+Print Assumptions C17_generated_concat_forward_is_model.
